@@ -445,4 +445,16 @@ pub mod verif_hooks {
   pub fn is_matched(step_size: i32, offset: i32, index: usize) -> bool {
     super::FunctionalPosition { step_size, offset }.is_matched(index)
   }
+  /// an `NthChild` matcher without `ofRule`, built from parts (no YAML)
+  pub fn nth_child_from_parts<L: super::Language>(
+    step_size: i32,
+    offset: i32,
+    reverse: bool,
+  ) -> super::NthChild<L> {
+    super::NthChild {
+      position: super::FunctionalPosition { step_size, offset },
+      of_rule: None,
+      reverse,
+    }
+  }
 }
